@@ -163,6 +163,16 @@ impl crate::vm::VM {
             }
             r.push(frame.function().index());
         }
+        // closure objects owning the upvalue vectors of the active frames (rooted by collect)
+        let running: Vec<*const crate::vm::GcRef> = self
+            .frames
+            .iter()
+            .filter(|f| !f.upvalues_ptr.is_null() && f.upvalues_len > 0)
+            .map(|f| f.upvalues_ptr)
+            .collect();
+        for c in self.heap.closures_owning_upvalues(&running) {
+            r.push(c.index());
+        }
         for v in self.globals.values() {
             if let Some(p) = v.as_ptr() {
                 r.push(p);
